@@ -101,6 +101,8 @@ class CellInvariant:
         self.full = full_levels
         self.cellfile = None
         self.enabled = True
+        self.retain = 0            # keep up to this many (cell, reference) pairs for revalidate()
+        self.retained = []
 
     def install(self):
         from pytoniq_core.boc import cell as cellmod
@@ -124,6 +126,21 @@ class CellInvariant:
 
     def uninstall(self):
         self.patch.undo()
+
+    def revalidate(self, why='end'):
+        """invariant at a quiescent point: every retained cell still holds the data it was constructed with and still reports the
+        hash of that data (a cell that shares a buffer with a builder/slice, or a stale cache, shows up here)"""
+        R = self.R
+        for cell, ref, route in self.retained:
+            R.counters['oracle_evaluations'] += 1
+            R.count('inv_revalidated')
+            now = cell.bits.to01()
+            W = {'bits_at_construction': ref.bits, 'bits_now': now, 'route': route, 'when': why}
+            if now != ref.bits or len(cell.refs) != len(ref.refs):
+                R.violation('inv-cell-data-changed-after-construction', f'a cell built via {route} held {len(ref.bits)} bits at construction and '
+                            f'{len(now)} bits at {why}: its data changed although cells are immutable', W)
+            elif cell.hash != ref.hash:
+                R.violation('inv-cell-hash-changed-after-construction', f'a cell built via {route} reports another hash at {why}', W)
 
     def route(self):
         f = sys._getframe(3)
@@ -167,6 +184,8 @@ class CellInvariant:
             cell._verif_rc = None
             return
         cell._verif_rc = ref
+        if len(self.retained) < self.retain:
+            self.retained.append((cell, ref, route))
         R.counters['oracle_evaluations'] += 1
         R.cover('inv_types', cell_type)
         R.cover('inv_masks', ref.mask)
